@@ -43,7 +43,7 @@ fn main() {
             let n: u64 = match std::env::var("VERIF_C03_SESSIONS").ok().and_then(|s| s.parse().ok()) {
                 Some(n) => n,
                 None => {
-                    if tier == "thorough" { 60_000 } else { 300 }
+                    if tier == "thorough" { 60_000 } else { 1_500 }
                 }
             };
             c03::main_batch(tier, n)
@@ -57,7 +57,7 @@ fn main() {
             let n: u64 = match std::env::var("VERIF_C19_SCENARIOS").ok().and_then(|s| s.parse().ok()) {
                 Some(n) => n,
                 None => {
-                    if tier == "thorough" { 4_000 } else { 60 }
+                    if tier == "thorough" { 12_000 } else { 300 }
                 }
             };
             c19::main_batch(tier, n)
